@@ -446,7 +446,8 @@ def main(ck):
     ck.assumptions = ["cell probabilities are non-negative (leaf cdf monotone): counted when violated",
                       "table mode: leaf cdf values enter the model as TABLE lines from constructed template instances"]
     arrays = list(gen_arrays(rng, 10000 if thorough else 1500))
-    process_arrays(ck, arrays)
+    for k in range(0, len(arrays), 250):  # bounded batches: the protocol text of one batch stays small
+        process_arrays(ck, arrays[k:k + 250])
     for case in gen_hdc_cases(rng, 1200 if thorough else 140, thorough):
         process_hdc(ck, case)
     for case in gen_default_cases(rng, 12 if thorough else 2):
